@@ -2,6 +2,26 @@
 from ..match import Checker
 
 
+def rehorizon_built(spec, cfg, old, poly=False):
+    """The specification `spec` (numeric t0, T) reached through a HISTORY: the OCP is first declared and transcribed with the horizon `old`
+    = (t0, T), then set_t0/set_T assign the final numbers; the next transcription is what the instance examines.
+    (Per-transcription state of the method object - node/root times, caches - must not survive.)"""
+    import copy
+    from ..extract import declare, quiet
+    assert spec.t0[0] == 'num' and spec.T[0] == 'num'
+    s_old = copy.deepcopy(spec)
+    s_old.t0, s_old.T = ('num', old[0]), ('num', old[1])
+    with quiet():
+        b = declare(s_old, cfg, poly=poly)
+        b.ocp.solver('ipopt')
+        b.ocp._transcribed
+        b.ocp.sample(b.xs[0], grid='control')
+        b.ocp.set_t0(float(spec.t0[1]))
+        b.ocp.set_T(float(spec.T[1]))
+    b.spec = spec
+    return b
+
+
 def multi(inst, fn):
     """run reference builder fn(traj) in every domain -> dict domain -> result"""
     return {d: fn(inst.traj(d)) for d in inst.domains()}
